@@ -141,6 +141,9 @@ type StaticHost struct {
 	Alarm      time.Time
 	Sent       []*gpbft.MessageBuilder
 	Decisions  []*gpbft.Justification
+	// CommitteeOutage[inst] = number of GetCommittee calls for inst that still fail (a transient
+	// failure of the host, e.g. EC not caught up yet)
+	CommitteeOutage map[uint64]int
 }
 
 var _ gpbft.Host = (*StaticHost)(nil)
@@ -160,6 +163,10 @@ func (h *StaticHost) GetProposal(_ context.Context, inst uint64) (*gpbft.Supplem
 }
 
 func (h *StaticHost) GetCommittee(_ context.Context, inst uint64) (*gpbft.Committee, error) {
+	if h.CommitteeOutage[inst] > 0 {
+		h.CommitteeOutage[inst]--
+		return nil, errors.New("committee temporarily unavailable")
+	}
 	c, ok := h.Committees[inst]
 	if !ok {
 		return nil, errors.New("no committee")
